@@ -439,6 +439,7 @@ def execStmt (w : World τ) (a : ActId) (fs : List (Frame τ)) : Stmt τ → Wor
     match lookup w.resNames r with
     | none => (w.emit a "unbound" []).retTo a fs .unit
     | some rid =>
+      let w := w.emit a "reschange" ((r : Int) :: (kind : Int) :: amounts)
       let levels := (w.res.getD rid default).levels
       if w.cfg.debug && amounts.any (fun x => x < 0 && !(kind == 2 && x == -1)) then w.raiseNew a fs (.assertion 4)
       else match kind with
@@ -619,6 +620,7 @@ def stepRet (w : World τ) (a : ActId) (f : Frame τ) (fs : List (Frame τ)) (v 
     (w.setLevels b (vecAdd bs.levels bs.debits)).doPostpone a (.borrowInserted r b body :: fs)
   | .borrowInserted r b body => (w.emit a "benter" (w.res.getD b default).debits).retTo a (.seq body :: .borrowBody r b :: fs) .unit
   | .borrowBody r b =>                                                 -- BorrowedResources.__aexit__, no exception
+    let w := w.emit a "bbody" [0]
     let bs := w.res.getD b default
     (w.setLevels b (vecSub bs.levels bs.debits)).doPostpone a (.borrowExit1 r b none :: fs)
   | .borrowExit1 r b orig =>
@@ -740,6 +742,7 @@ def stepRaise (w : World τ) (a : ActId) (f : Frame τ) (fs : List (Frame τ)) (
   | .transferDone p => (w.emit a "tabort" [p]).raiseTo a fs e
   | .borrowMark r => (w.emit a "bexit" [r, 1]).raiseTo a fs e
   | .borrowBody r b =>                                                 -- BorrowedResources.__aexit__ with an exception
+    let w := w.emit a "bbody" [1]
     let bs := w.res.getD b default
     if w.exn e == .genExit then
       -- forcefully closed: dispatch two new activities that give the resources back
